@@ -331,10 +331,16 @@ func c09shiftModel(cc *Ctx, rule, ruleState string) {
 			continue
 		}
 		sig := fn.Type().(*types.Signature)
-		if sig.Recv() != nil || sig.Params().Len() != 5 || sig.Results().Len() < 3 {
+		// two datums and a position of two (λ, φ: the height is zero) or three ordinates
+		np := sig.Params().Len()
+		if sig.Recv() != nil || (np != 4 && np != 5) || sig.Results().Len() < np-2 {
 			continue
 		}
-		if isDatumPtr(sig.Params().At(0).Type()) && isDatumPtr(sig.Params().At(1).Type()) && isFloat64(sig.Params().At(2).Type()) && isFloat64(sig.Params().At(3).Type()) && isFloat64(sig.Params().At(4).Type()) && isFloat64(sig.Results().At(0).Type()) {
+		floats := true
+		for i := 2; i < np; i++ {
+			floats = floats && isFloat64(sig.Params().At(i).Type())
+		}
+		if isDatumPtr(sig.Params().At(0).Type()) && isDatumPtr(sig.Params().At(1).Type()) && floats && isFloat64(sig.Results().At(0).Type()) {
 			wholes = append(wholes, fn)
 		}
 	}
@@ -410,16 +416,28 @@ func c09shiftModel(cc *Ctx, rule, ruleState string) {
 		return out, true
 	}
 	defer func() { m.it.stub = inner }()
+	nOrd := whole.Type().(*types.Signature).Params().Len() - 2
+	wholeArgs := func(ds, dd *oStruct) []oval {
+		args := []oval{oPtr{ds}, oPtr{dd}, oSym{polyVar("lam")}, oSym{polyVar("phi")}}
+		if nOrd == 3 {
+			args = append(args, oSym{polyVar("hh")})
+		}
+		return args
+	}
+	height := poly{} // what the first conversion must be given as the height
+	if nOrd == 3 {
+		height = polyVar("hh")
+	}
 	cons := cc.P.FuncName(whole) + "#steps"
 	pos := cc.P.Decl(whole).Pos()
 	before := showVal(d7) + "|" + showVal(d3)
 	cc.Evals(1)
-	res, why := m.it.Call(whole, nil, []oval{oPtr{d7}, oPtr{d3}, oSym{polyVar("lam")}, oSym{polyVar("phi")}, oSym{polyVar("hh")}}, 0)
+	res, why := m.it.Call(whole, nil, wholeArgs(d7, d3), 0)
 	switch {
 	case why != "":
 		c.Unk(rule, cons, pos, "the shift between a 7-parameter and a 3-parameter datum is not interpretable: %s", why)
 		return
-	case len(res) < 3:
+	case len(res) < nOrd:
 		c.Unk(rule, cons, pos, "result count")
 		return
 	}
@@ -437,7 +455,7 @@ func c09shiftModel(cc *Ctx, rule, ruleState string) {
 		bad = fmt.Sprintf("between a 7-parameter and a 3-parameter datum the position goes through %d conversions between geodetic and geocentric coordinates (%s), not one to geocentric coordinates and one back", len(steps), strings.Join(seq, ", "))
 	case steps[0].label != "source" || steps[1].label != "destination":
 		bad = "the conversions are not the source datum's to geocentric coordinates followed by the destination datum's back (" + strings.Join(seq, ", ") + ")"
-	case !steps[0].args[0].equal(polyVar("lam")) || !steps[0].args[1].equal(polyVar("phi")) || !steps[0].args[2].equal(polyVar("hh")):
+	case !steps[0].args[0].equal(polyVar("lam")) || !steps[0].args[1].equal(polyVar("phi")) || !steps[0].args[2].equal(height):
 		bad = "the conversion to geocentric coordinates is not given the longitude, latitude and height the shift was called with"
 	default:
 		g := [3]poly{outAtom(0, 0), outAtom(0, 1), outAtom(0, 2)}
@@ -448,7 +466,7 @@ func c09shiftModel(cc *Ctx, rule, ruleState string) {
 				bad = fmt.Sprintf("with (X, Y, Z) the geocentric position of the source, the conversion back is given %s' = %s; the source's shift to WGS84 followed by the destination's shift from WGS84 gives %s (translation t = p0..p2, rotations r = p3..p5, scale m = p6 of each datum)", axis[k], short(steps[1].args[k].canon()), short(want[k].canon()))
 			}
 		}
-		for k := 0; k < 3 && bad == ""; k++ {
+		for k := 0; k < nOrd && bad == ""; k++ {
 			if got, ok := symOf(res[k]); !ok || !got.equal(outAtom(1, k)) {
 				bad = fmt.Sprintf("result %d of the shift is not ordinate %d of the conversion back to geodetic coordinates", k+1, k+1)
 			}
@@ -572,16 +590,16 @@ func c09shiftModel(cc *Ctx, rule, ruleState string) {
 			labels[ds], labels[dd] = "source", "destination"
 			steps = nil
 			cc.Evals(1)
-			res, why := m.it.Call(whole, nil, []oval{oPtr{ds}, oPtr{dd}, oSym{polyVar("lam")}, oSym{polyVar("phi")}, oSym{polyVar("hh")}}, 0)
+			res, why := m.it.Call(whole, nil, wholeArgs(ds, dd), 0)
 			switch {
 			case strings.HasPrefix(why, "panic:"):
 				badS = pr.what + ": the shift panics: " + why
-			case why != "" || len(res) < 3:
+			case why != "" || len(res) < nOrd:
 				unkS = pr.what + ": the shift is not interpretable: " + why
 			case pr.differ && len(steps) != 2:
 				badS = fmt.Sprintf("%s: the position goes through %d conversions between geodetic and geocentric coordinates, not two — datums that differ are treated as equal and the shift is skipped", pr.what, len(steps))
 			case len(steps) == 0:
-				for k, in := range []string{"lam", "phi", "hh"} {
+				for k, in := range []string{"lam", "phi", "hh"}[:nOrd] {
 					if got, ok := symOf(res[k]); !ok || !got.equal(polyVar(in)) {
 						badS = fmt.Sprintf("%s: the shift is skipped but ordinate %d comes back as %s", pr.what, k+1, showVal(res[k]))
 					}
